@@ -137,6 +137,68 @@ template <class T> static void facts_for(const char *n) {
   facts<amc::SmallVector<T, 9> >("sv9"); facts<amc::FixedCapacityVector<T, 0> >("fcv0"); facts<amc::FixedCapacityVector<T, 1> >("fcv1"); facts<amc::FixedCapacityVector<T, 3> >("fcv3");
   facts<amc::FixedCapacityVector<T, 300> >("fcv300"); facts<amc::FlatSet<T, std::less<T>, amc::allocator<T>, amc::SmallVector<T, 3> > >("fs3");
 }
+// ---- run-time facts printed by the same probe: element ranges of ANOTHER type converted into the containers (range constructor, assign, insert).
+// Each line shows the bytes the amc container holds and the bytes std::copy produces for the same source; both must agree, in every build.
+#include <algorithm>
+#include <cstring>
+#include <list>
+template <class D> static void dump(const D *p, std::size_t n) {
+  const unsigned char *b = reinterpret_cast<const unsigned char *>(p);
+  for (std::size_t i = 0; i < n * sizeof(D); ++i) std::printf("%02x", unsigned(b[i]));
+}
+template <class V, class D, class It> static void conv_one(const char *name, const char *vn, const char *itn, It first, It last, std::size_t n) {
+  D ref[16], ref3[16];
+  std::copy(first, last, ref);
+  D filler = D();
+  {
+    V v(first, last);
+    std::printf("\nconvert %s %s %s ctor ", name, vn, itn); dump(v.data(), v.size()); std::printf("|"); dump(ref, n);
+  }
+  {
+    V v; v.push_back(filler); v.push_back(filler);
+    v.assign(first, last);
+    std::printf("\nconvert %s %s %s assign ", name, vn, itn); dump(v.data(), v.size()); std::printf("|"); dump(ref, n);
+  }
+  {
+    V v; v.push_back(filler); v.push_back(filler);
+    v.insert(v.begin() + 1, first, last);
+    ref3[0] = filler; std::copy(first, last, ref3 + 1); ref3[n + 1] = filler;
+    std::printf("\nconvert %s %s %s insert ", name, vn, itn); dump(v.data(), v.size()); std::printf("|"); dump(ref3, n + 2);
+  }
+}
+template <class D, class S> static void conv(const char *name, std::initializer_list<S> vals) {
+  S arr[8]; std::size_t n = 0;
+  for (typename std::initializer_list<S>::const_iterator it = vals.begin(); it != vals.end(); ++it) arr[n++] = *it;
+  std::list<S> l(arr, arr + n);
+  conv_one<amc::vector<D>, D>(name, "vector", "pointer", arr, arr + n, n);
+  conv_one<amc::SmallVector<D, 4>, D>(name, "SmallVector4", "pointer", arr, arr + n, n);
+  conv_one<amc::SmallVector<D, 12>, D>(name, "SmallVector12", "pointer", arr, arr + n, n);
+  conv_one<amc::FixedCapacityVector<D, 14>, D>(name, "FixedCapacityVector14", "pointer", arr, arr + n, n);
+  conv_one<amc::vector<D>, D>(name, "vector", "list", l.begin(), l.end(), n);
+  conv_one<amc::SmallVector<D, 12>, D>(name, "SmallVector12", "list", l.begin(), l.end(), n);
+}
+static void conversions() {
+  conv<bool, unsigned char>("bool<-uchar", {0, 1, 2, 0x80, 255, 0});
+  conv<bool, char>("bool<-char", {0, 1, 4, 'a', 0});
+  conv<bool, signed char>("bool<-schar", {0, -1, 2, 1});
+  conv<bool, int>("bool<-int", {0, 1, 256, -1, 65536});
+  conv<unsigned char, bool>("uchar<-bool", {true, false, true});
+  conv<unsigned char, int>("uchar<-int", {255, 256, 257, -1, 7});
+  conv<signed char, unsigned char>("schar<-uchar", {0, 127, 128, 255});
+  conv<char, unsigned char>("char<-uchar", {0, 127, 128, 255});
+  conv<int, unsigned char>("int<-uchar", {0, 200, 255});
+  conv<int, unsigned>("int<-unsigned", {0u, 5u, 4000000000u});
+  conv<unsigned, int>("unsigned<-int", {0, -1, 7});
+  conv<short, unsigned short>("short<-ushort", {static_cast<unsigned short>(1), static_cast<unsigned short>(65535), static_cast<unsigned short>(32768)});
+  conv<long long, int>("longlong<-int", {-5, 6, 0});
+  conv<long, long long>("long<-longlong", {-5ll, 1ll << 40});
+  conv<int, long long>("int<-longlong", {-5ll, (1ll << 40) + 3});
+  conv<float, int>("float<-int", {1, -2, 16777217});
+  conv<int, float>("int<-float", {1.5f, -2.75f, 100.0f});
+  conv<double, float>("double<-float", {1.5f, 0.1f});
+  conv<int, double>("int<-double", {1.9, -1.9, 1e6});
+  conv<unsigned long, unsigned>("ulong<-unsigned", {1u, 4000000000u});
+}
 int main() {
   typedef amc::vector<int> V; typedef amc::SmallVector<int, 4> SV; typedef amc::FixedCapacityVector<int, 4> F; typedef amc::FlatSet<int> S;
   std::printf("vector:%d%d%d smallvector:%d%d%d fcv:%d%d%d flatset:%d%d%d%d%d std:%d%d smallset_macro:%d\n",
@@ -155,6 +217,7 @@ int main() {
   facts_for<char>("char"); facts_for<short>("short"); facts_for<B3<3> >("b3"); facts_for<B3<5> >("b5"); facts_for<B3<6> >("b6"); facts_for<B3<7> >("b7"); facts_for<int>("int");
   facts_for<double>("double"); facts_for<NT>("nontrivial"); facts_for<TS>("throwing_swap"); facts_for<TA>("tr_throwing_assign"); facts_for<TM>("throwing_move");
   facts_for<std::pair<int, NT> >("pair_int_nt"); facts_for<std::pair<char, int> >("pair_char_int");
+  conversions();
   std::printf("\n");
   return 0;
 }
@@ -202,6 +265,9 @@ def run(tier, seed, only=None):
             continue
         for line in got[1].splitlines():
             w = line.split()
+            if len(w) == 6 and w[0] == 'convert' and w[5].split('|')[0] != w[5].split('|')[-1]:
+                absent_msgs.append('%s: %s %s(%s range) with elements converted %s holds bytes %s, converting element by element gives %s'
+                                   % (bname(b), w[2], w[4], w[3], w[1], w[5].split('|')[0], w[5].split('|')[-1]))
             if len(w) == 3 and w[0] == 'stdapi' and set(w[2]) != {'1'}:
                 absent_msgs.append('%s: a member of the standard interface of %s is not callable (detection bits %s; 0 = absent or inaccessible)' % (bname(b), w[1], w[2]))
     # compile-time facts (sizeof, noexcept, traits) printed by the same probe: identical in every build
@@ -215,6 +281,9 @@ def run(tier, seed, only=None):
                     if x != y:
                         wa, wb = x.split(), y.split()
                         d = [(p, q) for p, q in zip(wa, wb) if p != q][:3]
+                        if wa and wa[0] == 'convert':
+                            absent_msgs.append('converting range operation differs between %s and %s: "%s" gives %s vs %s' % (bname(ref_b), bname(b), ' '.join(wa[:5]), wa[-1], wb[-1]))
+                            break
                         absent_msgs.append('compile-time facts differ between %s and %s for "%s": %s (name:sizeof/alignof/nothrow move-construct, move-assign, swap, trivially relocatable, trivially destructible)'
                                            % (bname(ref_b), bname(b), ' '.join(wa[:2]), ', '.join('%s vs %s' % pq for pq in d)))
                         break
